@@ -379,7 +379,7 @@ func (s *Store) Get(key []byte) ([]byte, bool, error) {
 		return nil, false, nil
 	}
 
-	primaryKey, value, err := s.getPrimaryKeyData(fileOffset, indexKey)
+	_, primaryKey, value, err := s.getPrimaryKeyData(fileOffset, indexKey)
 	if err != nil {
 		return nil, false, err
 	}
@@ -451,7 +451,7 @@ func (s *Store) Put(key []byte, value []byte) error {
 	var storedVal []byte
 	var cmpKey bool
 	if found {
-		storedKey, storedVal, err = s.getPrimaryKeyData(prevOffset, indexKey)
+		prevOffset, storedKey, storedVal, err = s.getPrimaryKeyData(prevOffset, indexKey)
 		if err != nil {
 			return err
 		}
@@ -542,7 +542,7 @@ func (s *Store) Remove(key []byte) (bool, error) {
 
 	// If found, get the key and value stored in primary to see if it is the
 	// same (index only stores prefixes).
-	storedKey, _, err := s.getPrimaryKeyData(offset, indexKey)
+	offset, storedKey, _, err := s.getPrimaryKeyData(offset, indexKey)
 	if err != nil {
 		return false, err
 	}
@@ -575,10 +575,48 @@ func (s *Store) SetFileCacheSize(size int) {
 	s.fileCache.SetCacheSize(size)
 }
 
-func (s *Store) getPrimaryKeyData(blk types.Block, indexKey []byte) ([]byte, []byte, error) {
-	// Get the key and value stored in primary to see if it is the same (index
-	// only stores prefixes).
-	storedKey, storedValue, err := s.index.Primary.Get(blk)
+// maxStaleLookups is the number of times the index is consulted again when the
+// primary location obtained from it turns out to be unreadable or deleted.
+const maxStaleLookups = 8
+
+// getPrimaryKeyData reads the record at the primary location blk, which was
+// obtained from the index for indexKey, and returns the stored index key and
+// value if the record belongs to indexKey. A nil key means that the key is not
+// stored. The returned location is the one that was finally read: between the
+// index lookup and the primary read, GC may relocate the record, or the key
+// may be updated and the superseded record reclaimed. In that case the lookup
+// is repeated instead of reporting the key as missing or unreadable.
+func (s *Store) getPrimaryKeyData(blk types.Block, indexKey []byte) (types.Block, []byte, []byte, error) {
+	var storedKey, storedValue []byte
+	var err error
+	for i := 0; ; i++ {
+		// Get the key and value stored in primary to see if it is the same
+		// (index only stores prefixes).
+		storedKey, storedValue, err = s.index.Primary.Get(blk)
+		if err == nil && storedKey != nil {
+			break
+		}
+		if i == maxStaleLookups {
+			break
+		}
+		cur, found, lookupErr := s.index.Get(indexKey)
+		if lookupErr != nil {
+			break
+		}
+		if !found {
+			// The key was removed in the meantime.
+			return blk, nil, nil, nil
+		}
+		if cur == blk {
+			// The index still has this location, so it really is unusable.
+			break
+		}
+		blk = cur
+	}
+	if err == nil && storedKey == nil {
+		// Deleted record.
+		return blk, nil, nil, nil
+	}
 	if err != nil {
 		// Log the error reading the primary, since no error is returned if the
 		// bad index is successfully deleted.
@@ -588,9 +626,9 @@ func (s *Store) getPrimaryKeyData(blk types.Block, indexKey []byte) ([]byte, []b
 		// put this offset onto the free list, since it may be an invalid
 		// location in the primary.
 		if _, err = s.index.Remove(indexKey); err != nil {
-			return nil, nil, fmt.Errorf("error removing unusable index: %w", err)
+			return blk, nil, nil, fmt.Errorf("error removing unusable index: %w", err)
 		}
-		return nil, nil, nil
+		return blk, nil, nil, nil
 	}
 
 	// Check that the stored key is the correct type.
@@ -603,9 +641,9 @@ func (s *Store) getPrimaryKeyData(blk types.Block, indexKey []byte) ([]byte, []b
 		// it may be an invalid location in the primary.
 		log.Errorw("Bad key stored in primary or bad index, removing index", "err", err)
 		if _, err = s.index.Remove(indexKey); err != nil {
-			return nil, nil, fmt.Errorf("error removing unusable index: %w", err)
+			return blk, nil, nil, fmt.Errorf("error removing unusable index: %w", err)
 		}
-		return nil, nil, nil
+		return blk, nil, nil, nil
 	}
 
 	// The index stores only prefixes, hence check if the given key fully
@@ -613,10 +651,10 @@ func (s *Store) getPrimaryKeyData(blk types.Block, indexKey []byte) ([]byte, []b
 	// the actual value. If given key and stored key do not match, then some
 	// other key that has the same prefix was stored.
 	if !bytes.Equal(indexKey, storedKey) {
-		return nil, nil, nil
+		return blk, nil, nil, nil
 	}
 
-	return storedKey, storedValue, nil
+	return blk, storedKey, storedValue, nil
 }
 
 func (s *Store) flushTick() {
@@ -779,12 +817,12 @@ func (s *Store) Has(key []byte) (bool, error) {
 	// The index stores only prefixes, hence check if the given key fully matches the
 	// key that is stored in the primary storage before returning the actual value.
 	// TODO: avoid second lookup
-	primaryIndexKey, err := s.index.Primary.GetIndexKey(blk)
+	_, storedKey, _, err := s.getPrimaryKeyData(blk, indexKey)
 	if err != nil {
 		return false, err
 	}
 
-	return bytes.Equal(indexKey, primaryIndexKey), nil
+	return storedKey != nil, nil
 }
 
 func (s *Store) GetSize(key []byte) (types.Size, bool, error) {
@@ -804,12 +842,12 @@ func (s *Store) GetSize(key []byte) (types.Size, bool, error) {
 	// The index stores only prefixes, hence check if the given key fully matches the
 	// key that is stored in the primary storage before returning the actual value.
 	// TODO: avoid second lookup
-	primaryIndexKey, err := s.index.Primary.GetIndexKey(blk)
+	blk, storedKey, _, err := s.getPrimaryKeyData(blk, indexKey)
 	if err != nil {
 		return 0, false, err
 	}
 
-	if !bytes.Equal(indexKey, primaryIndexKey) {
+	if storedKey == nil {
 		return 0, false, nil
 	}
 	return blk.Size - types.Size(len(key)), true, nil
